@@ -491,7 +491,14 @@ func (g *gen) loopStmt(depth int) []Stmt {
 		body := g.block(1+g.intn(4, "lbn"), depth-1)
 		l := &Loop{HasCont: true}
 		exit := &If{Cond: &Binary{Op: ">=", L: cref(), R: limE, T: TBool}, Then: []Stmt{&Break{}}}
-		if g.chance(40, "lbi") {
+		condCalls := false
+		WalkExpr(limE, func(x Expr) bool {
+			if _, ok := x.(*CallE); ok {
+				condCalls = true
+			}
+			return !condCalls
+		})
+		if g.chance(40, "lbi") && !(condCalls && g.f.off("breakif.cond-call")) {
 			// exit through break-if in the continuing block
 			g.class("stmt:break-if")
 			l.Body = body
